@@ -14,8 +14,8 @@ import vlib
 
 QTY = [0, 1, 7, 8, 9, 123, 124, 125, 126, 1968, 1969, 1976, 1977, 2000, 2001, 2008]
 KNOWN_FC = [1, 2, 3, 4, 5, 6, 15, 16]
-SPEC_MODULES = ['Base.Show', 'Base.ServerTypes', 'Spec.Modbus', 'Model.ServerRender']
-MODULES = SPEC_MODULES + ['Model.Server', 'Model.ServerExec']
+SPEC_MODULES = ['Base.Show', 'Base.ServerTypes', 'Base.ServerRun', 'Spec.Modbus', 'Model.ServerRender']
+MODULES = SPEC_MODULES + ['Model.Server', 'Model.ServerRun', 'Model.ServerExec']
 STATE = {'model_ok': True}
 
 
@@ -669,3 +669,90 @@ def coverage(ctx, cases, impl, rule, extra_classes=None):
         'exhaustive': False,
     })
     return classes
+
+
+# ------------------------------------------------------------------------------------------ sessions with commands
+# a script case is (link, units, auth, script): script entries are frames (tx, dest, pdu) or one of
+# '@min' '@max' (ChangeDecoding), '@shutdown', '@close' (command channel closed), '@block' (writes pend),
+# '@unblock'. While blocked, a frame is followed only by commands until it is resolved.
+def gen_script(r, link):
+    base = gen_session(r, link, nframes=r.choice([1, 2, 3, 4, 6]), big_ok=False, raw=0.05)
+    script = []
+    frames = list(base[3])
+    for i, f in enumerate(frames):
+        for _ in range(r.choice([0, 0, 0, 1, 2])):
+            script.append(r.choice(['@min', '@max']))
+        if r.random() < 0.04:
+            script.append(r.choice(['@shutdown', '@close']))
+        if r.random() < 0.35:
+            script.append('@block')
+            script.append(f)
+            for _ in range(r.choice([0, 0, 1, 2, 3])):
+                script.append(r.choice(['@min', '@max']))
+            k = r.random()
+            if k < 0.6:
+                script.append('@unblock')
+            elif k < 0.75:
+                script.append('@shutdown')
+            elif k < 0.9:
+                script.append('@close')
+            elif i + 1 < len(frames):
+                script.append('@unblock')
+            # else: left pending at the end of the script
+        else:
+            script.append(f)
+    if r.random() < 0.3:
+        script.append(r.choice(['@min', '@max', '@shutdown', '@close']))
+    return (base[0], base[1], base[2], tuple(script))
+
+
+def script_line(case):
+    link, units, auth, script = case
+    head = to_line((link, units, auth, ())).rsplit('|', 1)[0]
+    toks = [x if isinstance(x, str) else adu(link, x).hex().upper() for x in script]
+    return head + '|' + (','.join(toks) or '-')
+
+
+def script_coq(case):
+    link, units, auth, script = case
+    base = to_coq((link, units, auth, ()))
+    assert base.endswith(', [])')
+    evs = []
+    blocked = False
+    for x in script:
+        if isinstance(x, str):
+            if x in ('@min', '@max'):
+                evs.append(f'ECommand (ChangeDecoding {1 if x == "@max" else 0})')
+            elif x == '@shutdown':
+                evs.append('ECommand Shutdown')
+            elif x == '@close':
+                evs.append('EClosed')
+            elif x == '@block':
+                blocked = True
+            elif x == '@unblock':
+                blocked = False
+                evs.append('EWriteDone')
+        else:
+            tx, dest, pdu = x
+            d = 'DBroadcast' if (link == 'rtu' and dest == 0) else f'(DUnit {dest})'
+            t = 'None' if tx is None else f'(Some {tx})'
+            evs.append(f'EFrame (mkf {t} {d} {_nl(pdu)})')
+            if not blocked:
+                evs.append('EWriteDone')
+    return base[:-len('[])')] + '[' + ';'.join(evs) + '])'
+
+
+def run_scripts(ctx, cases):
+    """implementation, model and Spec on script cases; replies are compared as the sequence of replies delivered"""
+    impl = ctx.harness('server', [script_line(c) for c in cases], shards=16)
+    norm = []
+    for i in impl:
+        rep, log, end = split3(i)
+        norm.append(([x for x in rep if x != '-'], log, end))
+    if STATE['model_ok']:
+        res = ctx.coq_eval(MODULES, 'run_both_ev', [script_coq(c) for c in cases], case_type='ecase', per_shard=100)
+        both = [tuple(x.split('#')) for x in res]
+    else:
+        res = ctx.coq_eval(SPEC_MODULES, 'run_spec_ev', [script_coq(c) for c in cases], case_type='ecase', per_shard=100)
+        both = [(None, x) for x in res]
+    return impl, norm, both
